@@ -269,6 +269,21 @@ def check(platform, arr, w, names, ctx, opts=None):
             ctx.viol("acls:" + "+".join(sorted(k.split(":")[0] for k in bad)), dict(case, acl=nm),
                      {k: v[0] for k, v in bad.items()}, {k: v[1] for k, v in bad.items()}, kf=kf)
             return
+    # the returned objects are independent of each other: no member / field object is shared
+    seen = {}
+    for acl in got:
+        for o in _flat(acl.items):
+            if not hasattr(o, "srcaddr"):
+                continue
+            for f in ("protocol", "srcaddr", "srcport", "dstaddr", "dstport", "option"):
+                objs = [getattr(o, f)] + (list(getattr(o, f).items) if f.endswith("addr") else [])
+                for x in objs:
+                    if id(x) in seen:
+                        ctx.viol("acls:returned_objects_share_state", case,
+                                 f"{f} of {o.line!r} in {acl.name} is also part of {seen[id(x)]}",
+                                 "every entry owns its objects")
+                        return
+                    seen[id(x)] = f"{o.line!r} in {acl.name}"
     ctx.out("acls_ok")
     if opts:
         ctx.out("options_ok")
